@@ -29,12 +29,12 @@ from mc import grammar as G
 ID = 'C08'
 LEVEL = 'exploration'
 
-PAYLOADS = ['&', '<', '>', "'", '"', '&amp;', ']]>', ' a', 'a  b', 'a&b<c>', '&#65;', '<!--', 'a\'"b', 'a ', '  ', '\xe9']
+PAYLOADS = ['&', '<', '>', "'", '"', '&amp;', ']]>', ' a', 'a  b', 'a&b<c>', '&#65;', '<!--', 'a\'"b', 'a ', '  ', '\xe9', '{x}', '{', '}', '{{a}}', '{0}', '%s', '%(a)s', '\\', '\\n', '$a', '`']
 DELIMS = [('~', '*', ':'), ('!', '|', '>'), ('$', '|', '+')]
 OUT_DELIMS = '~*:^'
 KEEP = ('ISA', 'GS', 'ST', 'SE', 'GE', 'IEA', 'HL', 'LX', 'BHT')     # segments whose values steer the envelope / map choice
 QUICK_KINDS = ('min', 'min-maxlen', 'lastcode', 'all', 'all-filled', 'all-swapped', 'all-filled-swapped', 'two-sets', 'two-groups', 'two-interchanges',
-               'include:', 'repeat2:', 'repeatmax:')
+               'include:', 'repeat2:', 'repeatmax:', 'ta1-', 'signed')
 
 
 # ---------------------------------------------------------------------------------------------------
